@@ -37,9 +37,15 @@ def main():
         reqs, metas = [], []
         for v, m in pairs:
             try:
-                impl = [list(x) for x in F.valmask2binlist(v, m)]
+                with common.time_limit(20):              # microseconds on the registered tree
+                    impl = [list(x) for x in F.valmask2binlist(v, m)]
+            except common.CallTimeout:
+                impl = "exc:does-not-terminate"
             except Exception as e:
                 impl = "exc:" + type(e).__name__
+            if impl == "exc:does-not-terminate":
+                ck.oracle_fail("expand:does-not-terminate", {"value": v, "mask": m}, "no result within 20 s (or out of memory)", "a list of ranges")
+                break
             metas.append(({"value": v, "mask": m}, impl))
             reqs.append({"op": "w.expand", "value": v, "mask": m})
         res = drv.batch(reqs)
